@@ -270,6 +270,8 @@ func (m *Machine) stmt(e *env, s Stmt) any {
 		m.out.WriteString(Show(m.eval(e, x.X)))
 	case *Todo:
 		panic(rtError{"..."})
+	case *FuncDecl, *FuncDef:
+		// text only
 	default:
 		panic(fmt.Sprintf("cdm stmt: %T", s))
 	}
